@@ -4,7 +4,7 @@ import PSO.Model.Raft
 # Handler-level ("Impl") model of the tick side of one PySyncObj node  (C20, C12, C18, C04-local)
 
 Executable, no imports beyond `PSO.Model.Raft` (for `Role`, `isMajority`).  Mirrors, statement by
-statement, these parts of `/repo/pysyncobj/syncobj.py` (tree with the repairs D1–D4, D9, D10, D21):
+statement, these parts of `/repo/pysyncobj/syncobj.py` (tree with the repairs D1–D4, D9, D10, D21, D71):
 
 * `_onTick`: election-timeout branch, leader branch (commit-advance loop over `__raftMatchIndex`,
   `leaderFallbackTimeout` count over `__lastResponseTime`), `__applyLogEntries`, the decision to call
@@ -14,7 +14,8 @@ statement, these parts of `/repo/pysyncobj/syncobj.py` (tree with the repairs D1
 * `__applyLogEntries` / `__doApplyCommand` with the *free state machine* as user object (a regular
   command records its id, then returns the new length or — flag `raises` — raises; the repaired code
   turns the exception into the command's result), VERSION entries (D10: stop the batch at an
-  unsupported version and keep the subscribers; D21: nothing is applied while the enabled version is
+  unsupported version and keep the subscribers; D71: a version below the enabled one is refused — the entry
+  counts as applied, nothing is set, its SUCCESS subscribers get the exception object; D21: nothing is applied while the enabled version is
   unsupported) and MEMBERSHIP entries (`__doChangeCluster`, forward direction).
 * `__onBecomeLeader`, `__setState`, `__onLeaderChanged`, `__generateRaftTimeout`, `__connectedToAnyone`,
   `hasQuorum`.
